@@ -119,6 +119,9 @@ func genSync() {
 				die("tryNode: unrecognised verification guard %q; %q", init, cond)
 			}
 			guards = append(guards, "VerifyBeacon")
+		case cond == "isResync" && !strings.Contains(blockString(is.Body), ".Put("):
+			// an `if isResync { <round test> } else if <round test> { … }` that only ends the attempt
+			collectRoundChecks(is, &roundChecks, guards)
 		case cond == "isResync":
 			putBranch(is.Body, "insecureStore")
 			eb, ok := is.Else.(*ast.BlockStmt)
@@ -262,4 +265,66 @@ func genSync() {
 	})
 	l.pf("/-- internal/chain/beacon: `ReSync` calls `Sync` again when the first call returned ErrFailedAll -/\ndef reSyncRetries : Bool := %s\n", retries)
 	l.pf("end Gen\n")
+}
+
+// blockString renders the conditions, inits and expression statements of a block (enough to look for calls in it).
+func blockString(b *ast.BlockStmt) string {
+	var sb strings.Builder
+	ast.Inspect(b, func(n ast.Node) bool {
+		switch t := n.(type) {
+		case *ast.IfStmt:
+			if t.Init != nil {
+				sb.WriteString(stmtString(t.Init) + ";")
+			}
+			sb.WriteString(exprString(t.Cond) + ";")
+		case *ast.ExprStmt:
+			sb.WriteString(exprString(t.X) + ";")
+		case *ast.AssignStmt:
+			sb.WriteString(stmtString(t) + ";")
+		}
+		return true
+	})
+	return sb.String()
+}
+
+// collectRoundChecks walks an if / else-if chain that stores nothing: every condition on beacon.Round whose body returns
+// false is a round check; anything else in such a chain is not a recognised shape.
+func collectRoundChecks(is *ast.IfStmt, out *[]string, guards []string) {
+	for _, g := range guards {
+		if strings.HasSuffix(g, ".Put") {
+			die("tryNode: a round check after the beacon was already stored")
+		}
+	}
+	var walk func(st ast.Stmt, prefix string)
+	walk = func(st ast.Stmt, prefix string) {
+		switch t := st.(type) {
+		case *ast.IfStmt:
+			cond := exprString(t.Cond)
+			if strings.Contains(cond, "beacon.Round") {
+				ret := false
+				ast.Inspect(t.Body, func(n ast.Node) bool {
+					if r, ok := n.(*ast.ReturnStmt); ok && len(r.Results) == 1 && exprString(r.Results[0]) == "false" {
+						ret = true
+					}
+					return true
+				})
+				if !ret {
+					die("tryNode: round test %q does not end the attempt with `return false`", cond)
+				}
+				*out = append(*out, prefix+cond)
+			} else {
+				for _, inner := range t.Body.List {
+					walk(inner, prefix+cond+"&&")
+				}
+			}
+			if t.Else != nil {
+				walk(t.Else, prefix+"!("+cond+")&&")
+			}
+		case *ast.BlockStmt:
+			for _, inner := range t.List {
+				walk(inner, prefix)
+			}
+		}
+	}
+	walk(is, "")
 }
